@@ -169,7 +169,23 @@ def prog_flag_boundary(rnd):
     return out
 
 
-TEMPLATES = [prog_flag_boundary, prog_counted_loop, prog_back_edge_to_origin, prog_nested_jsr, prog_call_rets, prog_recursive_call,
+def prog_trap_high_bits(rnd):
+    """TRAP words whose unused bits [11:8] are not zero (the assembler never emits them; images and self-modifying code
+    can): the routine is selected by bits [7:0] alone."""
+    h = lambda v: 0xF000 | (rnd.randrange(1, 16) << 8) | v
+    body = [LD(0, 6), h(0x21), h(0x26), LEA(0, 5), h(0x22), h(0x27), h(0x25), rnd.choice([0x41, 0x7A, 0xFFF9]),
+            0x4869, 0x0000]
+    k = rnd.randrange(4)
+    if k == 1:
+        body[1] = h(0x20)          # GETC with high bits
+    elif k == 2:
+        body[2] = h(0x23)          # IN
+    elif k == 3:
+        body[4] = h(0x24)          # PUTSP
+    return body
+
+
+TEMPLATES = [prog_flag_boundary, prog_trap_high_bits, prog_counted_loop, prog_back_edge_to_origin, prog_nested_jsr, prog_call_rets, prog_recursive_call,
              prog_selfmod, prog_no_halt, prog_jump, prog_strings, prog_string_wrap, prog_input,
              prog_stack_words, prog_unknown_trap, prog_rti, prog_random_weighted, prog_random_weighted,
              prog_random_weighted, prog_random_uniform]
